@@ -359,6 +359,20 @@ func genTextDT(r *core.Run, row int) (string, bool) {
 	return textPool[r.Rand.Intn(len(textPool))], false
 }
 
+// dates written day first or month first: some only one of the two notations reads (13/02/2003, 02/13/2003), most both
+func genDateAmb(r *core.Run, row int) (string, bool) {
+	rng := r.Rand
+	switch rng.Intn(10) {
+	case 0:
+		return "", true
+	case 1, 2:
+		return fmt.Sprintf("%02d/%02d/2003", 13+rng.Intn(16), 1+rng.Intn(12)), false
+	case 3, 4, 5:
+		return fmt.Sprintf("%02d/%02d/2003", 1+rng.Intn(12), 13+rng.Intn(16)), false
+	}
+	return fmt.Sprintf("%02d/%02d/2003", 1+rng.Intn(12), 1+rng.Intn(12)), false
+}
+
 func genDT(r *core.Run, row int) (string, bool) {
 	if r.Rand.Intn(8) == 0 {
 		return "", true
